@@ -217,6 +217,9 @@ func (st *vADSStream) Send(b []byte) error {
 		r.errd = 1
 	}
 	for _, n := range req.GetResourceNames() {
+		if strings.HasPrefix(n, "xdstp://") { // federated name xdstp://<authority>/<type>/r<k> (C44 shared mode)
+			n = n[strings.LastIndex(n, "/")+1:]
+		}
 		r.names = append(r.names, vADSNum(n, "r"))
 	}
 	sort.Slice(r.names, func(i, j int) bool { return r.names[i] < r.names[j] })
@@ -328,6 +331,43 @@ func vADSNewHarness(sotw []bool, feats []xdsclient.ServerFeature, slow bool) *vA
 	}
 	h.client = c
 	return h
+}
+
+// vADSNewHarnessShared is vADSNewHarness plus an authority "b" whose only server is the LAST
+// server of the list (identical ServerConfig, so the xdsChannel to it is shared between the
+// top-level authority and "b").
+func vADSNewHarnessShared(sotw []bool, feats []xdsclient.ServerFeature) *vADSHarness {
+	h := &vADSHarness{nsrv: int64(len(feats)), cb: map[int64][]int64{}, cancels: map[int64]func(){}}
+	h.cur = make([]*vADSTransport, len(feats))
+	h.nstreams = make([]int64, len(feats))
+	rts := map[string]xdsclient.ResourceType{}
+	for i, s := range sotw {
+		u := "t" + strconv.Itoa(i)
+		rts[u] = xdsclient.ResourceType{TypeURL: u, TypeName: u, AllResourcesRequiredInSotW: s, Decoder: vADSDecoder{}}
+	}
+	var servers []xdsclient.ServerConfig
+	for i, f := range feats {
+		servers = append(servers, xdsclient.ServerConfig{ServerIdentifier: clients.ServerIdentifier{ServerURI: "s" + strconv.Itoa(i)}, ServerFeature: f})
+	}
+	c, err := xdsclient.New(xdsclient.Config{
+		Servers: servers, Node: clients.Node{ID: "vnode"}, TransportBuilder: vADSBuilder{h},
+		Authorities:   map[string]xdsclient.Authority{"b": {XDSServers: []xdsclient.ServerConfig{servers[len(servers)-1]}}},
+		ResourceTypes: rts, WatchExpiryTimeout: vADSExpiry,
+	})
+	if err != nil {
+		panic(err)
+	}
+	h.client = c
+	return h
+}
+
+// watchName registers watcher w on a resource given by its full name.
+func (h *vADSHarness) watchName(w, typ int64, name string) bool {
+	if _, ok := h.cancels[w]; ok {
+		return false
+	}
+	h.cancels[w] = h.client.WatchResource("t"+strconv.FormatInt(typ, 10), name, &vADSWatcher{h: h, id: w})
+	return true
 }
 
 func (h *vADSHarness) watch(w, typ, name int64) bool {
